@@ -14,6 +14,9 @@ func PrintStmts(stmts []Stmt, st Style) string {
 }
 
 func braces(inner string, st Style) string {
+	if st.Marks {
+		return "{{" + st.open("p") + " " + inner + " }}" + st.close()
+	}
 	if st.Layout == TightLayout {
 		if strings.HasPrefix(inner, "-") || strings.HasPrefix(inner, "{") || strings.HasSuffix(inner, "}") {
 			return "{{ " + inner + " }}"
@@ -115,6 +118,7 @@ func printStmt(sb *strings.Builder, s Stmt, st Style) {
 		sb.WriteString(")" + st.close())
 		if len(n.Slots) > 0 {
 			for _, sl := range n.Slots {
+				sb.WriteString(n.Gap)
 				if sl.Name == "" {
 					sb.WriteString("@slot")
 				} else {
@@ -124,7 +128,7 @@ func printStmt(sb *strings.Builder, s Stmt, st Style) {
 				sb.WriteString(PrintStmts(sl.Body, st))
 				sb.WriteString("@end" + st.close())
 			}
-			sb.WriteString("@end")
+			sb.WriteString(n.Gap + "@end")
 		}
 	case SlotRef:
 		if n.Name == "" {
